@@ -595,12 +595,53 @@ def jobs(tier: str):
                 out.append(dict(name=f"{iface}/{app}/reldir/free{n + 1}", iface=iface, app=app, n=n, pre="/", dirmode="rel", weight=4 ** n))
             out.append(dict(name=f"{iface}/{app}/reldir/dotdot+2", iface=iface, app=app, n=2, pre="/../", dirmode="rel", weight=16))
             out.append(dict(name=f"{iface}/{app}/longname+2", iface=iface, app=app, n=2, pre="/" + "a" * 254, weight=20))
+    for iface in ("wsgi", "asgi"):
+        for app in ("files", "pages"):
+            out.append(dict(name=f"{iface}/{app}/mounted/recipes-real-url", kind="mounted-recipes", iface=iface, app=app, weight=30))
     out.append(dict(name="twin", iface="wsgi", app="files", n=2, twin=True))
     return out
 
 
+MOUNT_RECIPES = [(mount, path) for mount in ("/d", "/e", "/www", "/d/g") for path in ("/d", "/e", "/d/", "/d/g", "/e/h", "/f", "/", "/d/index.html", "/dx", "/up")]
+
+
+def job_mounted_recipes(job) -> report.JobResult:
+    """Pages / Files mounted at a prefix whose text also begins request paths (mount '/d' and a directory 'd' inside it): the REAL URL class builds the
+    redirect here (the symbolic jobs replace it by a stand-in).  The (mount, path) pair is a solver-chosen element of an enumerated list; each is
+    run on the real code over a real directory -- a RECIPE (sampling), not a symbolic exploration."""
+    res = report.JobResult.new(job["name"])
+    eng = Engine(budget_s=600)
+
+    def fn():
+        e = cur()
+        mount, path = MOUNT_RECIPES[e.choose(len(MOUNT_RECIPES), "recipe")]
+        w = {"iface": job["iface"], "app": job["app"], "path": path, "mount": mount}
+        cp = concrete_path(w)
+        if cp is not None:
+            raise Fail("mounted-app-wrong", f"{w}: {cp}")
+        return w
+
+    def on_path(e, r):
+        kind, v = r
+        if kind == "exc":
+            if isinstance(v, Fail):
+                mount, path = v.detail.split(": ", 1)[0], None
+                import ast
+                w = ast.literal_eval(v.detail.split("}: ", 1)[0] + "}")
+                res.violation(f"C07/{job['iface']}/{job['app']}/mounted/{v.klass}", w, v.detail, concrete_path(w) is not None)
+            else:
+                res.violation(f"C07/{job['iface']}/{job['app']}/mounted/exception", {"job": job["name"]}, repr(v), False)
+            return
+        res.kind("contained")
+        res["validated"] += 1
+        res.sample(v, limit=1)
+    eng.explore(fn, on_path)
+    res.absorb_engine(eng)
+    return res
+
+
 def run_job(job):
-    return job_path(job)
+    return job_mounted_recipes(job) if job.get("kind") == "mounted-recipes" else job_path(job)
 
 
 def replay(rec) -> int:
